@@ -361,7 +361,7 @@ func ruleMarshalInto(c *Ctx) {
 			why = "calcNext(true) on tag " + string(rune(tag)) + " leaves addNext = " + last
 		}
 	}
-	c.MinCount("calcNext(into) container paths", nInto, 3)
+	c.MinCount("calcNext(into) container paths", nInto, 2)
 	c.Check(sumOK, "calcNext:into-zero", p.Pos(cn), "calcNext(true) leaves addNext = 0 on root, object-start and array-start tags", why, "any document with a container, walked with AdvanceInto")
 	// AdvanceInto hands `true` to calcNext on every path that reads a tag
 	aps, ok := p.SymPaths(ai, 10000, nil)
